@@ -3,6 +3,7 @@
 -/
 import UnifexModel.Driver.Entry
 import UnifexModel.Proto.Cancellable
+import UnifexModel.Proto.CancellableAfter
 import UnifexModel.Proto.DetachOnCancel
 import UnifexModel.Proto.Canary
 import UnifexModel.Proto.StopOnRequest
@@ -16,6 +17,10 @@ def cancellable : ModelEntries :=
   ("cancellable",
     (Cancellable.configs ++ [("r_race", Cancellable.cfgRace), ("r_early", Cancellable.cfgEarly)]).map (fun (n, c) =>
       (n, mkEntry (Cancellable.sys c) Cancellable.obsOf (Cancellable.final c))))
+
+def cancellableafter : ModelEntries :=
+  ("cancellableafter", CancellableAfter.configs.map (fun (n, c) =>
+      (n, mkEntry (CancellableAfter.sys c) Cancellable.obsOf (Cancellable.final c))))
 
 def detachoncancel : ModelEntries :=
   ("detachoncancel", DetachOnCancel.configs.map (fun (n, c) =>
